@@ -25,7 +25,8 @@ RULE += (
     ' Exhaustive reuse part: every accepted parameter tuple with max_length <= 3 (thorough: 4) x every earlier stream of 1..5 (6) frames x how it was left (list run, generator unstarted / advanced one token and abandoned, two generators requested up front) x every later stream of 1..4 (5) frames: the used tokenizer must satisfy the property like a fresh one.'
 )
 MUST_HIT = ["d1_shape", "d2_shape", "short_remainder", "grid_accept", "grid_reject"]
-ASSUMPTIONS = ["a token has max_length frames iff it was cut (follows from len<=max and eager cutting)"]
+ASSUMPTIONS = [
+    "frame kind 'stateful': a validator whose k-th answer is the k-th bit of the pattern (a validator with a memory, e.g. an adaptive threshold) - meaningful only if the tokenizer consults the validator once per frame, in stream order","a token has max_length frames iff it was cut (follows from len<=max and eager cutting)"]
 
 BOUNDS = {
     "quick": dict(L=10, M=3, hyp_examples=1200, maxlen=64, maxmax=8, grid=(-2, 5)),
